@@ -304,6 +304,15 @@ pub fn run() -> Report {
             } else if let Some((sig, detail)) = bad.into_iter().next() {
                 acc.disagree(&format!("uniform-size-chain:{}", sig), format!("{}: {}", l.label, detail), replay_case(&world, &spec, expected_brief("csvdump == model of the logical chain", s, e), &r, &wk.dir));
             }
+            // the same layout read through a height range: "the block delivered for a height" must not depend on where the run starts
+            let (rs, re) = [(1u64, n as u64), (2, 3), (n as u64 - 1, n as u64), (1, 2)][_i % 4];
+            let spec = RunSpec::new("bitcoin", "csvdump").range(Some(rs), Some(re));
+            let r = wk.run(&spec);
+            acc.transitions += 1;
+            acc.count("uniform-size-chain-with-range", 1);
+            if let Some((sig, detail)) = check_csvdump(&r, btc, &in_range(&uni_all, rs, re), rs, re).into_iter().next() {
+                acc.disagree(&format!("uniform-size-chain:range:{}", sig), format!("{} -s {} -e {}: {}", l.label, rs, re, detail), replay_case(&world, &spec, expected_brief("csvdump == model of the logical chain", rs, re), &r, &wk.dir));
+            }
         },
     );
     for p in uparts {
